@@ -191,6 +191,13 @@ ECancel ==
 -----------------------------------------------------------------------------
 (* socketstream.go stream(): accept goroutine *)
 
+\* leaving the accept loop.  The code as repaired (fix 9cf62fdb): the accept goroutine itself, in a deferred call,
+\* waits for the handlers and closes the channel ("wait", "close") - independently of the closer goroutine, which only
+\* closes the listener: close(lines) may come BEFORE l.Close(), and a late dial may still succeed into a backlog nobody
+\* will ever accept from.  The code before the repair (DEV_HandlerAddedAfterWait): the accept goroutine just returns
+\* and the closer does Wait/close.
+AccExit == IF DEV_HandlerAddedAfterWait THEN "done" ELSE "wait"
+
 \* c, err := l.Accept()  (err == nil)
 SAccept(w) ==
   /\ Sock /\ acc.pc = "accept" /\ lis = "open" /\ w \in pend
@@ -201,7 +208,7 @@ SAccept(w) ==
 \* l.Accept() returns "use of closed network connection": return
 SAcceptFail ==
   /\ Sock /\ acc.pc = "accept" /\ lis = "closed"
-  /\ acc' = [pc |-> "done", cur |-> 0]
+  /\ acc' = [pc |-> AccExit, cur |-> 0]
   /\ UNCHANGED <<cfg, wst, nwr, inflight, q, lis, pend, closer, started, connWg, h, buf, dl,
                  cancelled, out, chanClosed, panic, wr, landed, rd, zeroRead, dropped>>
 
@@ -211,7 +218,7 @@ SAdd ==
   /\ connWg' = connWg + 1
   /\ h' = [h EXCEPT ![acc.cur] = [@ EXCEPT !.pc = "read", !.key = KeyFor(acc.cur, acc.cur)]]
   /\ started' = TRUE
-  /\ acc' = [pc |-> IF cfg.oneShot THEN "done" ELSE "accept", cur |-> 0]
+  /\ acc' = [pc |-> IF cfg.oneShot THEN AccExit ELSE "accept", cur |-> 0]
   /\ UNCHANGED <<cfg, wst, nwr, inflight, q, lis, pend, closer, buf, dl,
                  cancelled, out, chanClosed, panic, wr, landed, rd, zeroRead, dropped>>
 
@@ -227,7 +234,7 @@ SCloserStart ==
 \* if !oneShot { <-ctx.Done() } ; l.Close()  - the backlog is discarded
 SCloserListener ==
   /\ Sock /\ closer = "ctx" /\ (cfg.oneShot \/ cancelled)
-  /\ lis' = "closed" /\ pend' = {} /\ closer' = "wait"
+  /\ lis' = "closed" /\ pend' = {} /\ closer' = IF DEV_HandlerAddedAfterWait THEN "wait" ELSE "done"
   /\ UNCHANGED <<cfg, wst, nwr, inflight, q, acc, started, connWg, h, buf, dl,
                  cancelled, out, chanClosed, panic, wr, landed, rd, zeroRead, dropped>>
 
@@ -238,6 +245,18 @@ SCloserWait ==
   /\ closer' = "close"
   /\ UNCHANGED <<cfg, wst, nwr, inflight, q, lis, pend, acc, started, connWg, h, buf, dl,
                  cancelled, out, chanClosed, panic, wr, landed, rd, zeroRead, dropped>>
+
+\* the accept goroutine's deferred  connWg.Wait(); close(ss.lines)
+SAccWait ==
+  /\ Sock /\ acc.pc = "wait" /\ connWg = 0
+  /\ acc' = [acc EXCEPT !.pc = "close"]
+  /\ UNCHANGED <<cfg, wst, nwr, inflight, q, lis, pend, closer, started, connWg, h, buf, dl,
+                 cancelled, out, chanClosed, panic, wr, landed, rd, zeroRead, dropped>>
+SAccClose ==
+  /\ Sock /\ acc.pc = "close"
+  /\ chanClosed' = TRUE /\ acc' = [acc EXCEPT !.pc = "done"]
+  /\ UNCHANGED <<cfg, wst, nwr, inflight, q, lis, pend, closer, started, connWg, h, buf, dl,
+                 cancelled, out, panic, wr, landed, rd, zeroRead, dropped>>
 
 \* close(ss.lines)
 SCloseChan ==
@@ -370,7 +389,7 @@ EnvNext == \/ \E w \in Writers : EOpen(w) \/ EOpenFail(w) \/ EWriteFail(w) \/ EC
            \/ ECancel
 KernelNext == \E w \in Writers : KOpenLand(w) \/ KLand(w) \/ KDrop(w)
 StreamNext == \/ \E w \in Writers : SAccept(w)
-              \/ SAcceptFail \/ SAdd \/ SCloserStart \/ SCloserListener \/ SCloserWait \/ SCloseChan
+              \/ SAcceptFail \/ SAdd \/ SCloserStart \/ SCloserListener \/ SCloserWait \/ SCloseChan \/ SAccWait \/ SAccClose
               \/ SReadDgram \/ SReadZeroDgram
               \/ \E c \in Chans : \/ SDeadline(c) \/ SReadEof(c) \/ SReadTimeout(c) \/ SSend(c) \/ SSendNone(c) \/ SCloseFd(c) \/ SExit(c)
                                   \/ \E k \in 1..Len(q[c]) : SRead(c, k)
@@ -387,6 +406,7 @@ Fairness == /\ \A w \in 1..3 : WF_vars(w \in Writers /\ KOpenLand(w)) /\ WF_vars
             /\ WF_vars(SReadDgram \/ SReadZeroDgram)
             /\ WF_vars(\E w \in Writers : SAccept(w)) /\ WF_vars(SAcceptFail) /\ WF_vars(SAdd)
             /\ WF_vars(SCloserStart) /\ WF_vars(SCloserListener) /\ WF_vars(SCloserWait) /\ WF_vars(SCloseChan)
+            /\ WF_vars(SAccWait) /\ WF_vars(SAccClose)
 Spec == Init /\ [][Next]_vars /\ Fairness
 
 -----------------------------------------------------------------------------
